@@ -23,7 +23,12 @@ Bit8(x, m) == (x \div m) % 2 = 1
 RECURSIVE ChainEnd(_, _)
 ChainEnd(b, i) == IF i > Len(b) THEN 0 ELSE IF b[i] >= 128 THEN ChainEnd(b, i + 1) ELSE i
 
+\* Parse is total: a string too short to hold the flags byte is simply not an EBP
+NotAnEbp == [ok |-> FALSE, cablelabs |-> FALSE, tag |-> 0, flags |-> 0, fragment |-> FALSE, segment |-> FALSE, sapflag |-> FALSE,
+             grouping |-> FALSE, timeflag |-> FALSE, disc |-> FALSE, extflag |-> FALSE, extbyte |-> 0, partition |-> FALSE, sap |-> 0,
+             groups |-> <<>>, seconds |-> <<0, 0, 0, 0>>, fraction |-> <<0, 0, 0, 0>>, partflags |-> 0, tail |-> <<>>]
 Parse(b) ==
+  IF Len(b) < 3 \/ (b[1] = TagCableLabs /\ Len(b) < 7) THEN NotAnEbp ELSE
   LET tag   == b[1]
       cl    == tag = TagCableLabs
       fi    == IF cl THEN 7 ELSE 3                 \* index of the flags byte
